@@ -131,6 +131,29 @@ def int_eq_edges(fn, terms, is_val, n):
     return out
 
 
+def int_eq_edges_ne(fn, terms, is_val, n):
+    """edges under which the integer value recognised by is_val differs from the constant n (`v != n` true edge, `v == n` false edge,
+    the default arm of a `match v` that has an arm for n)"""
+    isv = lambda t: is_val(t) or is_val(M.noref(t))
+    def cmp_(op):
+        return lambda c: c[0] == "bin" and c[1] == op and ((const_of(c[3]) == n and isv(c[2])) or (const_of(c[2]) == n and isv(c[3])))
+    out = bool_edges(fn, terms, cmp_("Ne"), True) + bool_edges(fn, terms, cmp_("Eq"), False)
+    for bb in sorted(fn.live_blocks()):
+        t = fn.blocks[bb]["term"]
+        if t["k"] != "switch" or t.get("dty") == "bool":
+            continue
+        r = M.switch_operand_def(fn, bb)
+        if r is not None and r["k"] == "discr":
+            continue
+        term = terms.rvalue(r) if r is not None else terms.operand(t["d"])
+        if not isv(term):
+            continue
+        tg = [b for v, b in t["targets"] if v == n]
+        if len(tg) == 1 and len(t["targets"]) == 1 and t["otherwise"] != tg[0]:
+            out.append((bb, t["otherwise"]))
+    return out
+
+
 def stores_to_field(fn, field, owner=None):
     """(bb, stmt index, stmt) of every MIR store whose destination place ends in `.field`
     (of ADT `owner` if given) or passes through it"""
